@@ -29,47 +29,77 @@ H(s) == (s * 7919 + nops * 10473 + npub * 12997 + now * 15487 + top * 32443 + Le
 Sel(q, h, d) == q[((h \div d) % Len(q)) + 1]
 Pick(S, h) == Sel(Q(S), h, 1)
 
-PubArgs == {a \in [k : Keys, km : KeyModes, cas : Cases, v : Versions, ve : VerEpochs, ik : IdemKeys, ittl : IdemTTLs, sc : Scores] :
-              /\ (a.v = 0 => a.ve = "") /\ (a.ik = "" => a.ittl = AnIdemTTL) /\ (~cf.ord => a.sc = AScore)
-              /\ (IsEph => (~a.cas.has /\ a.v = 0) \/ a.km = "")}      \* few of the rejected-in-ephemeral calls
+KeyQ3 == KeySeq
+\* free draw: every component from its own digits of the hash
+FreeArgs(h) ==
+  LET v  == IF (h \div 5) % 2 = 0 THEN 0 ELSE Sel(Q(Versions), h, 11)
+      ik == IF (h \div 7) % 3 = 0 THEN Sel(Q(IdemKeys), h, 13) ELSE ""
+  IN [k    |-> Sel(KeyQ3, h, 1),
+      km   |-> IF (h \div 3) % 2 = 0 THEN "" ELSE Sel(Q(KeyModes), h, 17),
+      cas  |-> IF IsEph /\ (h \div 43) % 8 # 0 THEN NoCas
+               ELSE IF (h \div 19) % 4 = 0 THEN Sel(Q(Cases), h, 23) ELSE NoCas,
+      v    |-> IF IsEph /\ (h \div 47) % 8 # 0 THEN 0 ELSE v,
+      ve   |-> IF v = 0 \/ (IsEph /\ (h \div 47) % 8 # 0) THEN "" ELSE Sel(Q(VerEpochs), h, 29),
+      ik   |-> ik,
+      ittl |-> IF ik = "" THEN AnIdemTTL ELSE Sel(Q(IdemTTLs), h, 31),
+      sc   |-> IF cf.ord THEN Sel(Q(Scores), h, 37) ELSE AScore]
 DoPublish(a) == Publish(a.k, a.km, a.cas, a.v, a.ve, a.ik, a.ittl, a.sc)
 
-SimPublish(s) == DoPublish(Pick(PubArgs, H(s)))
+SimPublish(s) == DoPublish(FreeArgs(H(s)))
+
+\* aimed draws: arguments built around the key's stored position / version
+E1 == IF chEx THEN ep ELSE epc + 1
+Mk(k, km, cas, v, ve, h) ==
+  [k |-> k, km |-> km, cas |-> cas, v |-> v, ve |-> ve, ik |-> "", ittl |-> AnIdemTTL,
+   sc |-> IF cf.ord THEN Sel(Q(Scores), h, 37) ELSE AScore]
+Held == {k \in DOMAIN st : st[k].ver > 0}
+WrongCas(k, h) ==
+  IF k \in DOMAIN st
+    THEN Sel(<<[has |-> TRUE, off |-> st[k].off + 1, ep |-> E1], [has |-> TRUE, off |-> st[k].off, ep |-> E1 + 1],
+               [has |-> TRUE, off |-> st[k].off, ep |-> 0], [has |-> TRUE, off |-> 0, ep |-> E1]>>, h, 41)
+    ELSE Sel(<<[has |-> TRUE, off |-> 1, ep |-> E1], [has |-> TRUE, off |-> 0, ep |-> E1]>>, h, 41)
+FailKm(k, h) == IF k \in DOMAIN st THEN Sel(<<"if_new", "if_new_refresh">>, h, 43) ELSE "if_exists"
+StaleV(k, h) == IF (h \div 47) % 2 = 0 THEN st[k].ver ELSE 1
+StaleVe(k, h) == IF (h \div 53) % 2 = 0 THEN "" ELSE st[k].vep
 
 \* publish to an existing key with its current position as ExpectedPosition (CAS can succeed)
 SimCasHit(s) ==
-  LET h == H(s + 50)
-      S == {a \in PubArgs : /\ a.k \in DOMAIN st /\ a.cas.has /\ a.cas.off = st[a.k].off /\ a.cas.ep = ep /\ a.ik = ""}
-  IN S # {} /\ DoPublish(Pick(S, h))
-
+  LET h == H(s + 50) IN
+  ~IsEph /\ DOMAIN st # {} /\
+  LET k == Sel(Q(DOMAIN st), h, 1)
+      v == IF (h \div 5) % 3 = 0 THEN Sel(Q(Versions), h, 11) ELSE 0
+  IN DoPublish(Mk(k, IF (h \div 3) % 3 = 0 THEN Sel(Q(KeyModes), h, 17) ELSE "",
+                  [has |-> TRUE, off |-> st[k].off, ep |-> ep], v, IF v = 0 THEN "" ELSE Sel(Q(VerEpochs), h, 29), h))
 \* at least two checks would suppress
 SimMulti(s) ==
   LET h == H(s + 70)
-      e1 == IF chEx THEN ep ELSE epc + 1
-      n(a) == (IF WouldVersion(a.k, a.v, a.ve) THEN 1 ELSE 0) + (IF WouldKeyMode(a.k, a.km) THEN 1 ELSE 0)
-              + (IF WouldCas(a.k, a.cas, e1) THEN 1 ELSE 0)
-      S == {a \in PubArgs : a.ik = "" /\ n(a) >= 2}
-  IN S # {} /\ DoPublish(Pick(S, h))
-
+      k == Sel(KeyQ3, h, 1)
+      p == IF k \in Held THEN (h \div 3) % 4 ELSE 0
+  IN ~IsEph /\
+     DoPublish(CASE p = 0 -> Mk(k, FailKm(k, h), WrongCas(k, h), 0, "", h)
+                 [] p = 1 -> Mk(k, FailKm(k, h), NoCas, StaleV(k, h), StaleVe(k, h), h)
+                 [] p = 2 -> Mk(k, "", WrongCas(k, h), StaleV(k, h), StaleVe(k, h), h)
+                 [] OTHER -> Mk(k, FailKm(k, h), WrongCas(k, h), StaleV(k, h), StaleVe(k, h), h))
 \* versioned publish to a key that holds a version (equal / lower / higher, same or other epoch)
 SimVersioned(s) ==
-  LET h == H(s + 90)
-      S == {a \in PubArgs : a.k \in DOMAIN st /\ st[a.k].ver > 0 /\ ~a.cas.has /\ a.km = "" /\ a.ik = ""}
-  IN S # {} /\ DoPublish(Pick(S, h))
-
+  LET h == H(s + 90) IN
+  Held # {} /\
+  DoPublish(Mk(Sel(Q(Held), h, 1), "", NoCas, Sel(Q(Versions \ {0}), h, 11), Sel(Q(VerEpochs), h, 29), h))
 \* keep-alive of an existing key
 SimRefresh(s) ==
-  LET h == H(s + 110)
-      S == {a \in PubArgs : a.k \in DOMAIN st /\ a.km = "if_new_refresh" /\ ~a.cas.has /\ a.v = 0 /\ a.ik = ""}
-  IN S # {} /\ DoPublish(Pick(S, h))
+  LET h == H(s + 110) IN
+  DOMAIN st # {} /\ DoPublish(Mk(Sel(Q(DOMAIN st), h, 1), "if_new_refresh", NoCas, 0, "", h))
 
-RemArgs == {a \in [k : Keys, cas : Cases, ik : IdemKeys, ittl : IdemTTLs] :
-              (a.ik = "" => a.ittl = AnIdemTTL) /\ (IsEph => ~a.cas.has)}
 SimRemove(s) ==
-  LET a == Pick(RemArgs, H(s + 130)) IN RemoveKey(a.k, a.cas, a.ik, a.ittl)
+  LET h == H(s + 130)
+      ik == IF (h \div 7) % 3 = 0 THEN Sel(Q(IdemKeys), h, 13) ELSE ""
+  IN RemoveKey(Sel(KeyQ3, h, 1), IF IsEph \/ (h \div 19) % 3 # 0 THEN NoCas ELSE Sel(Q(Cases), h, 23),
+               ik, IF ik = "" THEN AnIdemTTL ELSE Sel(Q(IdemTTLs), h, 31))
 SimRemoveHit(s) ==
-  LET S == {a \in RemArgs : a.k \in DOMAIN st /\ (a.cas.has => (a.cas.off = st[a.k].off /\ a.cas.ep = ep))}
-  IN S # {} /\ LET a == Pick(S, H(s + 150)) IN RemoveKey(a.k, a.cas, a.ik, a.ittl)
+  LET h == H(s + 150)
+      k == Sel(KeyQ3, h, 1)
+  IN k \in DOMAIN st /\
+     RemoveKey(k, IF IsEph \/ (h \div 3) % 2 = 0 THEN NoCas ELSE [has |-> TRUE, off |-> st[k].off, ep |-> ep], "", AnIdemTTL)
 
 SimReadState(s) ==
   LET h == H(s + 170)
